@@ -11,6 +11,9 @@ class ProgramError(Exception):
     """The program itself is malformed (harness bug, never a verdict)."""
 
 
+MESH_LEVEL = ("geometry", "add", "delete", "delete_sub", "merge", "default_patch", "modify_patch", "setting")
+
+
 class Interp:
     def __init__(self, program: Dict[str, Any]):
         import classy_blocks as cb
@@ -21,6 +24,7 @@ class Interp:
         self.env: Dict[str, Any] = {}
         self.mesh = cb.Mesh()
         self.added: List[str] = []  # names in add order
+        self.mesh_log: List[Dict[str, Any]] = []  # mesh-level declarations so far (for remesh)
         self.trace: List[str] = []
         self.hooks: Dict[str, Any] = {}  # engine callbacks: before_<op> / after_<op>
 
@@ -85,6 +89,8 @@ class Interp:
         if h:
             h(i, op)
         fn(op)
+        if name in MESH_LEVEL:
+            self.mesh_log.append(op)
         h = self.hooks.get("after")
         if h:
             h(i, op)
@@ -271,6 +277,17 @@ class Interp:
 
     def op_setting(self, op) -> None:
         self.mesh.settings[op["key"]] = op["value"]
+
+    def op_remesh(self, op) -> None:
+        """the same entities, as they stand, go into a second Mesh object with the same mesh-level
+        declarations in the same order; the first Mesh is left alone"""
+        log, self.mesh_log = self.mesh_log, []
+        self.first_mesh = self.mesh
+        self.mesh = self.cb.Mesh()
+        self.added = []
+        for o in log:
+            getattr(self, "op_" + o["op"])(o)
+            self.mesh_log.append(o)
 
     def op_assemble(self, op) -> None:
         self.mesh.assemble()
